@@ -293,6 +293,24 @@ def run_harness(prop, cfg, tier, seed, rundir, extra=None):
     return stages
 
 
+def moved_fns(prop, cfg):
+    """functions (token hashes, tools/fn_hashes.py) that differ from the pinned baseline, restricted
+    to the files the property is anchored in (properties.jsonl) plus cfg['extra_files']"""
+    try:
+        import fn_hashes
+        ch = fn_hashes.diff()
+        if ch is None:
+            return []
+        files = set(cfg.get("extra_files", []))
+        for l in open(os.path.join(VERIF, "properties.jsonl")):
+            d = json.loads(l)
+            if d["id"] == prop:
+                files |= set(d.get("anchors", {}).get("files", []))
+        return [k for k in ch if k.split("::")[0] in files]
+    except Exception as e:  # never let the bookkeeping decide a verdict
+        return []
+
+
 def check(prop, tier, seed, replay=None):
     t0 = time.time()
     cfg = PROPS[prop]
@@ -305,6 +323,9 @@ def check(prop, tier, seed, replay=None):
     notes = []
     with Lock():
         g = gen()
+        moved = moved_fns(prop, cfg)
+        if moved:
+            notes.append("functions whose token hash differs from tools/fn_hashes.pinned.json in files this property is anchored in: " + ", ".join(moved[:12]) + (" …" if len(moved) > 12 else ""))
         rc, out, dt_lake, errs = lake_build(cfg["lean_modules"] + ["bvdrive"])
         lean_ok = rc == 0
         if g.get("errors"):
@@ -360,8 +381,9 @@ def check(prop, tier, seed, replay=None):
         # escalation: a broken obligation or a disagreement with nothing found -> thorough search
         found = any(s.get("report", {}).get("violations") for s in stages)
         dis = any(s.get("corr", {}).get("ndis") for s in stages)
-        if (broken or dis) and not found and tier == "quick":
-            notes.append("escalated search to thorough budget (broken obligation / disagreement without a failing input)")
+        if (broken or dis or moved) and not found and tier == "quick":
+            notes.append("escalated search to thorough budget (%s without a failing input)" % (
+                "broken obligation / disagreement" if (broken or dis) else "anchored functions changed since the pinned baseline"))
             stages2 = run_harness(prop, cfg, "thorough", seed, os.path.join(rundir), None)
             if any(s.get("report", {}).get("violations") for s in stages2):
                 stages = stages2
@@ -407,7 +429,7 @@ def check(prop, tier, seed, replay=None):
                "case": first[2] if first else None,
                "all_impl_violations": [v[2] for v in impl_v][:20],
                "model_impl_disagreements": [v[2] for v in dis_v][:20],
-               "broken_obligations": broken,
+               "broken_obligations": broken, "fingerprint_mismatches": moved,
                "gen": g, "notes": notes,
                "rerun": "./check %s --replay %s" % (prop, replay_path)}
         json.dump(rep, open(replay_path, "w"), indent=1)
@@ -446,7 +468,7 @@ def check(prop, tier, seed, replay=None):
             "correspondence": {s["name"]: {"lines": s.get("corr", {}).get("lines", 0), "disagreements": s.get("corr", {}).get("ndis", 0)} for s in stages},
             "gen": {k: g.get(k) for k in ("items", "fns", "changed_source", "errors")},
             "stage_wall_s": {s["name"]: s["wall_s"] for s in stages},
-            "repo_head": head, "notes": notes,
+            "repo_head": head, "notes": notes, "fingerprint_mismatches": moved,
             "known_findings_hit": [k.get("signature") for k, _ in known_hits][:20],
         },
         "assumptions": cfg.get("assumptions", []),
